@@ -504,7 +504,7 @@ func genValue(t *rapid.T) string {
 	case 3:
 		return strconv.FormatInt(rapid.Int64().Draw(t, "i64"), 10)
 	case 4:
-		return []string{"9223372036854775807", "9223372036854775808", "-9223372036854775808", "-9223372036854775809", "99999999999999999999", "+7", "-0", "007", "2147483648"}[rapid.IntRange(0, 8).Draw(t, "edge")]
+		return []string{"9223372036854775807", "9223372036854775808", "-9223372036854775808", "-9223372036854775809", "99999999999999999999", "+7", "-0", "007", "2147483648", "010", "0123", "00000000000000000099", "0x10", "0X1f", "0b101", "0o17", "1_000", "0_7", "-010", "+0x1"}[rapid.IntRange(0, 19).Draw(t, "edge")]
 	case 5:
 		return []string{"1", "t", "T", "TRUE", "true", "True", "0", "f", "F", "FALSE", "false", "False", "yes", "on", "tRUE", " true"}[rapid.IntRange(0, 15).Draw(t, "bool")]
 	case 6:
